@@ -89,6 +89,9 @@ func ParseWithEnvMapping(in io.Reader, mapping func(string) string) (config Conf
 	if err = dec.Decode(&config); err != nil {
 		return
 	}
+	if err = config.checkContentsEntries(); err != nil {
+		return
+	}
 	config.envMappingFunc = mapping
 	if config.envMappingFunc == nil {
 		config.envMappingFunc = func(s string) string { return s }
@@ -206,6 +209,37 @@ func (c *Config) expandEnvVarsStringSlice(items []string) []string {
 	}
 
 	return items
+}
+
+// checkContentsEntries refuses an entry of a contents list that is written
+// without any setting ("-" alone, or null): it is decoded as nil and there is
+// nothing it could mean.
+func (c *Config) checkContentsEntries() error {
+	check := func(where string, contents files.Contents) error {
+		for i, entry := range contents {
+			if entry == nil {
+				return fmt.Errorf("%s: entry %d is empty", where, i+1)
+			}
+		}
+		return nil
+	}
+	if err := check("contents", c.Contents); err != nil {
+		return err
+	}
+	names := make([]string, 0, len(c.Overrides))
+	for name := range c.Overrides {
+		names = append(names, name)
+	}
+	sort.Strings(names)
+	for _, name := range names {
+		if c.Overrides[name] == nil {
+			continue
+		}
+		if err := check("overrides."+name+".contents", c.Overrides[name].Contents); err != nil {
+			return err
+		}
+	}
+	return nil
 }
 
 func (c *Config) expandEnvVarsContents(contents files.Contents) files.Contents {
